@@ -60,13 +60,30 @@ func c38Exec(out *verifx.Out, side string, cs *s3hCase, line string) {
 	}
 }
 
-// c38ExecPaged runs the two operations the shared history language lacks: listings read page by
-// page with a small MaxKeys, following the markers the storage returns.
+// c38ExecPaged runs the operations the shared history language lacks: UploadPartCopy (`op upc`) and
+// listings read page by page with a small MaxKeys, following the markers the storage returns.
 //   op lsvp <b> <n>   ListObjectVersions, MaxKeys n, continued with NextKeyMarker/NextVersionIDMarker
 //   op lsp <b> <n>    ListObjects, MaxKeys n, continued with StartAfter = last key of the page
 // res ok <page>|<page>|…   (entries as in lsv / ls; "~" for an empty page)
 func c38ExecPaged(c *s3hCase, line string) bool {
 	t := strings.Fields(line)
+	if len(t) >= 8 && t[1] == "upc" {
+		// op upc <b> <k> <upload ordinal> <part number> <src bucket> <src key> svid=<~|null|vN>
+		c.out.Line("%s", line)
+		a := kv(t)
+		var o *storage.UploadPartCopyOptions
+		if vid := parseVidArg(c, a["svid"]); vid != nil {
+			o = &storage.UploadPartCopyOptions{SourceVersionID: vid}
+		}
+		res, err := c.st.UploadPartCopy(c.ctx, storage.MustNewBucketName("bkt-"+t[6]), storage.MustNewObjectKey(t[7]),
+			storage.MustNewBucketName("bkt-"+t[2]), storage.MustNewObjectKey(t[3]), c.uid(t[4]), atoi32(t[5]), o)
+		if err != nil {
+			c.resErr(err)
+		} else {
+			c.out.Line("res ok etag=%s svid=%s", res.ETag, c.vidOut(res.SourceVersionID))
+		}
+		return true
+	}
 	if len(t) < 4 || (t[1] != "lsvp" && t[1] != "lsp") {
 		return false
 	}
@@ -118,28 +135,79 @@ func c38ExecPaged(c *s3hCase, line string) bool {
 	return true
 }
 
-// c38Extra draws, now and then, an operation the shared generator produces rarely or not at all:
-// paged listings and a conditional delete addressed by version id.
-func c38Extra(r *verifx.Rng, g *s3hGen) (string, bool) {
+// c38Extra draws, now and then, operations the shared generator produces rarely or not at all: paged
+// listings, conditional deletes addressed by version id, copies that replace metadata/tags by empty sets,
+// copies and part copies whose source is addressed by version id (incl. `null` under a newer version).
+func c38Extra(r *verifx.Rng, g *s3hGen) []string {
 	b := g.bk()
-	switch r.Intn(16) {
+	vid := func() string {
+		if n := len(g.c.vids); n > 0 && r.Chance(1, 2) {
+			return fmt.Sprintf("v%d", r.Intn(n))
+		}
+		return "null"
+	}
+	switch r.Intn(24) {
 	case 0, 1:
-		return fmt.Sprintf("op lsvp %s %d", b, 1+r.Intn(3)), true
+		return []string{fmt.Sprintf("op lsvp %s %d", b, 1+r.Intn(3))}
 	case 2:
-		return fmt.Sprintf("op lsp %s %d", b, 1+r.Intn(2)), true
+		return []string{fmt.Sprintf("op lsp %s %d", b, 1+r.Intn(2))}
 	case 3, 4:
 		k := g.key()
-		vid := "null"
-		if n := len(g.c.vids); n > 0 && r.Chance(3, 4) {
-			vid = fmt.Sprintf("v%d", r.Intn(n))
-		}
 		im := verifx.Pick(r, []string{"bogus", "bogus", "*"})
 		if e, ok := g.c.lastEtag[b+"/"+k]; ok && r.Chance(1, 2) {
 			im = e
 		}
-		return fmt.Sprintf("op del %s %s vid=%s im=%s", b, k, vid, im), true
+		v := "null"
+		if n := len(g.c.vids); n > 0 && r.Chance(3, 4) {
+			v = fmt.Sprintf("v%d", r.Intn(n))
+		}
+		return []string{fmt.Sprintf("op del %s %s vid=%s im=%s", b, k, v, im)}
+	case 5, 6:
+		// a copy that replaces metadata and/or tags by EMPTY sets, from a source that carries both
+		k, dk := g.key(), g.key()
+		if k == dk {
+			return nil
+		}
+		h := verifx.HexS
+		mdir, tdir := verifx.Pick(r, []string{"R", "C"}), "R"
+		if r.Chance(1, 4) {
+			mdir, tdir = "R", "C"
+		}
+		return []string{
+			fmt.Sprintf("op put %s %s %s ct=%s md=%s:%s,%s:%s tags=%s:%s cls=~ inm=0 im=~", b, k, verifx.Hex(g.body()), h("text/plain"), h("!cc"), h("no-cache"), h("a"), h("1"), h("t"), h("v")),
+			fmt.Sprintf("op cp %s %s %s %s svid=~ mdir=%s tdir=%s ct=~ md=~ tags=~ cls=~", b, k, b, dk, mdir, tdir),
+			fmt.Sprintf("op head %s %s vid=~", b, dk), fmt.Sprintf("op gtag %s %s vid=~", b, dk),
+		}
+	case 7, 8:
+		// a copy whose source is addressed by version id (the literal null included)
+		k, dk := g.key(), g.key()
+		if k == dk {
+			return nil
+		}
+		return []string{fmt.Sprintf("op cp %s %s %s %s svid=%s mdir=C tdir=C ct=~ md=~ tags=~ cls=~", b, k, b, dk, vid()),
+			fmt.Sprintf("op get %s %s vid=~", b, dk)}
+	case 9, 10:
+		// UploadPartCopy from a source addressed by version id (or the current version) into an open upload
+		for i := len(g.mpus) - 1; i >= 0; i-- {
+			u := &g.mpus[i]
+			if u.done {
+				continue
+			}
+			n := len(u.parts) + 1
+			u.parts = append(u.parts, n)
+			sv := vid()
+			if r.Chance(1, 4) {
+				sv = "~"
+			}
+			return []string{fmt.Sprintf("op upc %s %s %d %d %s %s svid=%s", u.b, u.k, i, n, b, g.key(), sv)}
+		}
+	case 11:
+		// overwrite a pre-versioning object under versioning, so that `null` lies under a newer version
+		k := g.key()
+		return []string{"op ver " + b + " S", fmt.Sprintf("op put %s %s %s ct=~ md=~ tags=~ cls=~ inm=0 im=~", b, k, verifx.Hex(g.body())),
+			"op ver " + b + " E", fmt.Sprintf("op put %s %s %s ct=~ md=~ tags=~ cls=~ inm=0 im=~", b, k, verifx.Hex(g.body()))}
 	}
-	return "", false
+	return nil
 }
 
 func (p *c38Pair) both(line string) {
@@ -221,6 +289,21 @@ func c38Directed() []c38Dir {
 			// // conditional CompleteMultipartUpload
 			"op mkb b0", "op put b0 k0 " + h("exists") + " ct=~ md=~ tags=~ cls=~ inm=0 im=~", "op mpu b0 k0 ct=~ md=~ tags=~ cls=~", "op upp b0 k0 0 1 " + h("part"),
 			"op cmpl b0 k0 0 parts=~ inm=1 im=~", "op get b0 k0 vid=~",
+		),
+		mk("", // copies that replace tags / metadata by EMPTY sets
+			"op mkb b0",
+			"op put b0 k0 " + h("src") + " ct=" + h("text/plain") + " md=" + h("!cc") + ":" + h("no-cache") + "," + h("a") + ":" + h("1") + " tags=" + h("t") + ":" + h("v") + " cls=~ inm=0 im=~",
+			"op cp b0 k0 b0 k1 svid=~ mdir=C tdir=R ct=~ md=~ tags=~ cls=~", "op gtag b0 k1 vid=~", "op head b0 k1 vid=~",
+			"op cp b0 k0 b0 k2 svid=~ mdir=R tdir=C ct=~ md=~ tags=~ cls=~", "op gtag b0 k2 vid=~", "op head b0 k2 vid=~",
+			"op cp b0 k0 b0 dir/k2 svid=~ mdir=R tdir=R ct=~ md=~ tags=~ cls=~", "op gtag b0 dir/k2 vid=~", "op head b0 dir/k2 vid=~",
+		),
+		mk("", // the null version under a newer version as the source of a copy and of a part copy
+			"op mkb b0", "op put b0 k0 " + h("written before versioning") + " ct=~ md=~ tags=~ cls=~ inm=0 im=~", "op ver b0 E",
+			"op put b0 k0 " + h("newer version") + " ct=~ md=~ tags=~ cls=~ inm=0 im=~",
+			"op cp b0 k0 b0 k1 svid=null mdir=C tdir=C ct=~ md=~ tags=~ cls=~", "op get b0 k1 vid=~",
+			"op cp b0 k0 b0 k1 svid=v0 mdir=C tdir=C ct=~ md=~ tags=~ cls=~", "op get b0 k1 vid=~",
+			"op mpu b0 dir/k2 ct=~ md=~ tags=~ cls=~", "op upc b0 dir/k2 0 1 b0 k0 svid=null", "op upc b0 dir/k2 0 2 b0 k0 svid=~", "op upc b0 dir/k2 0 3 b0 k0 svid=v0",
+			"op cmpl b0 dir/k2 0 parts=~ inm=0 im=~", "op get b0 dir/k2 vid=~", "op lsv b0",
 		),
 		mk("", // error kinds: missing key / missing bucket / delete marker / version addressing
 			"op mkb b0", "op get b0 k0 vid=~", "op head b0 k0 vid=~", "op get b1 k0 vid=~", "op head b1 k0 vid=~", "op gtag b0 k0 vid=~", "op del b1 k0 vid=~ im=~",
@@ -311,7 +394,7 @@ func runC38(args []string) {
 					continue
 				}
 				p.both(line)
-				if extra, ok := c38Extra(r, g); ok {
+				for _, extra := range c38Extra(r, g) {
 					p.both(extra)
 				}
 				if i%20 == 19 {
